@@ -603,6 +603,12 @@ class World:
                     raise Inconclusive(f'lost anchor: storage handle {h} not found in {m["file"]}')
                 ml = re.search(r'::\s*new\s*\(\s*("(?:[^"\\]|\\.)*")\s*\)\s*$', it['expr'].strip())
                 if not ml:
+                    # a named constant of the same file
+                    mi = re.search(r'::\s*new\s*\(\s*([A-Z][A-Z0-9_]*)\s*\)\s*$', it['expr'].strip())
+                    cst = mi and next((i for i in self.index[path]['items'] if i['kind'] == 'const' and i['name'] == mi.group(1)), None)
+                    if cst and re.fullmatch(r'"(?:[^"\\]|\\.)*"', cst['expr'].strip()):
+                        ml = re.match(r'(.*)', cst['expr'].strip())
+                if not ml:
                     raise Inconclusive(f'unsupported: the namespace of storage handle {h} is not a string literal: {it["expr"][:80]}')
                 lits.append((h, ml.group(1)))
             for (ha, la), (hb, lb) in zip(lits, lits[1:]):
